@@ -32,6 +32,7 @@ pub fn run_property(property: &str, tier: Tier) -> i32 {
         report.set("neighbour_families", json!(rows));
     }
     if property == "C15" { crate::lifecycle::run_c15_part(&mut report, tier); }
+    if property == "C07" { crate::lifecycle::run_c07_part(&mut report, tier); }
     if property == "C10" { super::deque::run(&mut report, tier); }
     if property == "C07" { super::settings::run(&mut report); }
     report.finish()
@@ -73,6 +74,7 @@ pub fn run_family_into(report: &mut Report, property: &str, family: &str, config
 
     for (index, cfg) in configs.iter().enumerate() {
         let cfg = Arc::new(cfg.clone());
+        crate::common::watchdog::set_context(property, tier.name(), json!({"family": family, "config_index": index}));
         let result: ConfigResult<Ev> = explore::<World>(&cfg, &limits, &pool);
         if determinism.is_none() && !result.capped && result.states < 150_000 {
             // same search on a different number of threads must visit the same number of states and transitions
